@@ -26,6 +26,7 @@
 
 #include <stddef.h>
 
+#include "alloc.h"
 #include "authenticate.h"
 #include "compiler.h"
 #include "groups.h"
@@ -79,6 +80,9 @@ cJSON *handle_authentication(struct peer *p, const cJSON *request)
 	const cJSON *call_groups = cJSON_GetObjectItem(auth, "callGroups");
 	p->call_groups = get_groups(call_groups);
 
+	if (p->user_name != NULL) {
+		cjet_free(p->user_name);
+	}
 	p->user_name = duplicate_string(user->valuestring);
 	if (p->user_name == NULL) {
 		return create_error_response_from_request(p, request, INTERNAL_ERROR, "reason", "not enough memory to allocate user name");
